@@ -1083,6 +1083,27 @@ func (i *interpreter) mark(fr *frame, what string) {
 			}
 		}
 		p.frozenOn = true
+	case what == "quiesce":
+		// let every other goroutine run until it finishes or blocks; runaway
+		// goroutines are preempted after a time slice, the whole phase is bounded
+		s := i.sched
+		i.noFork = true
+		defer func() { i.noFork = false }()
+		s.quantum = 4000
+		s.sliceEnd = i.path.steps + s.quantum
+		for round := 0; round < 25; round++ {
+			any := false
+			for _, g := range s.gs {
+				if g != s.cur && g.state == gRunnable {
+					any = true
+				}
+			}
+			if !any {
+				break
+			}
+			s.yield()
+		}
+		s.quantum = 0
 	case what == "unfreeze":
 		p.frozenOn = false
 	case what == "race-on":
